@@ -277,7 +277,7 @@ theorem deserInits_spec (vi : List (Name × Info)) (ts : List TensorP) :
     ∀ (st : Store) (tbl : Table) (b : Nat), TblOK st b tbl → b ≤ st.nv →
       Quiet st (deserInits st tbl vi ts).1 ∧ TblOK (deserInits st tbl vi ts).1 b (deserInits st tbl vi ts).2.1 ∧
       Stable st.nv tbl (deserInits st tbl vi ts).2.1 ∧
-      ∀ v ∈ (deserInits st tbl vi ts).2.2, ∃ x, (x, v) ∈ (deserInits st tbl vi ts).2.1 := by
+      ∀ v ∈ (deserInits st tbl vi ts).2.2, ∃ x, x ≠ "" ∧ (x, v) ∈ (deserInits st tbl vi ts).2.1 := by
   induction ts with
   | nil =>
     intro st tbl b h _
@@ -287,7 +287,8 @@ theorem deserInits_spec (vi : List (Name × Info)) (ts : List TensorP) :
     simp only [deserInits]
     split
     · exact ih st tbl b h hb
-    · have qt := Quiet.allocTensor st { name := some t.name, data := t.data, ty := t.ty, sh := t.sh }
+    · rename_i hne
+      have qt := Quiet.allocTensor st { name := some t.name, data := t.data, ty := t.ty, sh := t.sh }
       split
       · rename_i v hv
         have hvlt : v < st.nv := h.lt _ (lookup_mem _ _ _ hv)
@@ -300,7 +301,7 @@ theorem deserInits_spec (vi : List (Name × Info)) (ts : List TensorP) :
         intro w hw
         simp only [List.mem_cons] at hw
         rcases hw with rfl | hw
-        · exact ⟨t.name, s3.mem _ (lookup_mem _ _ _ hv)⟩
+        · exact ⟨t.name, hne, s3.mem _ (lookup_mem _ _ _ hv)⟩
         · exact m3 w hw
       · rename_i hnone
         obtain ⟨q2, hnv2⟩ := newInit_quiet (st.allocTensor { name := some t.name, data := t.data, ty := t.ty, sh := t.sh }).1
@@ -317,7 +318,7 @@ theorem deserInits_spec (vi : List (Name × Info)) (ts : List TensorP) :
         intro w hw
         simp only [List.mem_cons] at hw
         rcases hw with rfl | hw
-        · exact ⟨t.name, s4.mem _ (by simp)⟩
+        · exact ⟨t.name, hne, s4.mem _ (by simp)⟩
         · exact m4 w hw
 
 /-! ### declaring node outputs -/
